@@ -113,10 +113,31 @@ RFieldBegin(r, b) ==
                        ELSE [ok |-> TRUE, r |-> [r1 EXCEPT !.last = ToInt(z.val)], n |-> 1 + z.n,
                              t |-> FromCompact(ct), id |-> ToInt(z.val)]
 RFieldEnd(r) == [ok |-> TRUE, r |-> r, n |-> 0]
+\* read_bool completes a bool field announced through field_begin_len (the announcement is dropped)
 RBool(r, b) ==
-  IF r.pv # <<>> THEN [ok |-> TRUE, r |-> [r EXCEPT !.pv = <<>>], n |-> 0, b |-> r.pv[1]]
+  IF r.pv # <<>> THEN [ok |-> TRUE, r |-> [r EXCEPT !.pv = <<>>, !.pid = <<>>], n |-> 0, b |-> r.pv[1]]
   ELSE IF Len(b) < 1 \/ b[1] \notin {CT_TRUE, CT_FALSE} THEN RBad(r) @@ [b |-> 0]
-  ELSE [ok |-> TRUE, r |-> r, n |-> 1, b |-> IF b[1] = CT_TRUE THEN 1 ELSE 0]
+  ELSE [ok |-> TRUE, r |-> [r EXCEPT !.pid = <<>>], n |-> 1, b |-> IF b[1] = CT_TRUE THEN 1 ELSE 0]
+
+\* --- the READER's length methods (impl TLengthProtocol for TCompactInputProtocol): emitted decoders call them to keep
+\* track of offsets.  field_begin_len(Bool) only announces the field (pid); for other types it computes a header length
+\* from the CURRENT last id -- which read_field_begin has already advanced, so the delta is 0 and the long form is
+\* reported whatever the header on the wire looked like (as built; it matters only for retention on compact, which no
+\* listed property covers).  Results: [ok, r, n (length returned)]
+RLFieldBegin(r, t, id) ==
+  IF t = T_BOOL THEN (IF r.pid # <<>> THEN RBad(r) ELSE [ok |-> TRUE, r |-> [r EXCEPT !.pid = <<id>>], n |-> 0])
+  ELSE LET delta == id - r.last IN
+       [ok |-> TRUE, r |-> [r EXCEPT !.last = id],
+        n |-> IF delta > 0 /\ delta < 15 THEN 1 ELSE 1 + Len(ZVarint(FromInt(id, 16)))]
+RLHeader(r, id) == LET delta == id - r.last IN IF delta > 0 /\ delta < 15 THEN 1 ELSE 1 + Len(ZVarint(FromInt(id, 16)))
+RLStructBegin(r) == [ok |-> TRUE, r |-> [r EXCEPT !.stack = Append(r.stack, r.last), !.last = 0], n |-> 0]
+RLStructEnd(r) == IF r.pid # <<>> \/ r.stack = <<>> THEN RBad(r)
+                  ELSE [ok |-> TRUE, r |-> [r EXCEPT !.last = Top(r.stack), !.stack = Pop(r.stack)], n |-> 0]
+\* bool_len completes an announced bool field: its header is sized now (and the last id advanced); a bare bool is one byte
+RLBool(r) == IF r.pid # <<>> THEN [ok |-> TRUE, r |-> [r EXCEPT !.last = r.pid[1], !.pid = <<>>], n |-> RLHeader(r, r.pid[1])]
+             ELSE [ok |-> TRUE, r |-> r, n |-> 1]
+RLFieldEnd(r) == IF r.pid # <<>> THEN RBad(r) ELSE [ok |-> TRUE, r |-> r, n |-> 0]
+RLFieldStop(r) == IF r.pid # <<>> THEN RBad(r) ELSE [ok |-> TRUE, r |-> r, n |-> 1]
 RI8(r, b) == IF Len(b) < 1 THEN RBad(r) @@ [v |-> <<0>>] ELSE [ok |-> TRUE, r |-> r, n |-> 1, v |-> <<b[1]>>]
 RInt(r, b, W) == LET z == DecZVarint(b, 0, W) IN
                  IF ~z.ok THEN RBad(r) @@ [v |-> ZeroInt(W)] ELSE [ok |-> TRUE, r |-> r, n |-> z.n, v |-> z.val]
